@@ -142,7 +142,7 @@ def c06_merkle_commits_every_tx(ctx, v):
             if o.kind in ("unsupported", "unwound", "path-limit"):
                 return v.undecided("n=%d %s %s" % (n, o.kind, o.info))
             if o.kind == "panic":
-                v.fail("n=%d panic: %s" % (n, o.info))
+                L.report_panic(v, ex, o, "n=%d panic: %s" % (n, o.info))
                 continue
             if o.kind != "stopped":
                 continue
@@ -200,7 +200,7 @@ def c06_merkle_root_recomputed(ctx, v):
                 return v.undecided("%s %s" % (o.kind, o.info))
             if o.kind != "return":
                 continue
-            gen = [e for e in o.events if e[0] == "call" and re.search(r"MerkleTree::generate$", e[1])]
+            gen = [e for e in o.events if e[0] == "call" and re.search(r"MerkleTree::|merkle::", e[1])]
             v.queries += 1
             if not gen:
                 r, m = ex.model_for(o.pc)
